@@ -13,7 +13,7 @@ ASSUMPTIONS = [
     "the rendered string is compared piecewise with the expected markup (exact string equality); 'stripping the markup recovers the sequence' follows from it",
 ]
 OUTSIDE = ["sequences longer than the bound; in the thorough tier positions other than the block boundaries are concrete letters", "mixed-case colour names"]
-NMAX = {"quick": 12, "thorough": 14}
+NMAX = {"quick": 12, "thorough": 20}
 LONG = {"quick": [51, 101], "thorough": [50, 51, 52, 60, 100, 101, 151]}
 ITEM_TIMEOUT = {"quick": 600, "thorough": 2400}
 COL = T.HTML_COLOURS
